@@ -21,7 +21,7 @@ def consts_tables():
     m = re.search(r"scheme://path only : ([^*]*)\*\)", txt)
     ponly = m.group(1).split() if m else ["ipc", "unix", "abstract", "inproc", "socket"]
     flags = {}
-    for k in ("SCHEME_EXACT", "UTF8_ACCUM", "CLONE_ALLOC", "CLONE_NULL"):
+    for k in ("SCHEME_EXACT", "UTF8_ACCUM", "CLONE_ALLOC", "CLONE_NULL", "BRACKET"):
         m = re.search(r"URL_FIX_%s : bool := (\w+)" % k, txt)
         flags[k] = (m.group(1) == "true") if m else None
     return schemes, ponly, flags
@@ -69,7 +69,7 @@ SEGS = [b"", b".", b"..", b"...", b"%2e", b"%2E", b"%2e%2E", b".%2e", b"%2F", b"
         b"%g4", b"%%41", b"%2%35", b"a%", b" ", b"a b", b".a", b"a.", b"..a", b".%00", b"x+y", b";p=1", b"@", b":", b"[", b"]", b"%c3%a9",
         b"%C3%A9", b"%e2%82%ac", b"%80", b"%c3", b"%c3a", b"\x7f", b"\x01"]
 HOSTS = [b"h", b"host", b"Host.Example.COM", b"www.google.com", b"127.0.0.1", b"[::1]", b"[FE80::1]", b"[fe80::1%25eth0]", b"[::1",
-         b"[::1]x", b"[]", b"[", b"]", b"[[x]]", b"[a]b]", b"[a:]", b"", b"a b", b"h%41", b"H\xc3\x89", b"x.y-z_0", b"*", b"a[b",
+         b"[::1]x", b"[]", b"[", b"]", b"[[x]]", b"[[x]", b"[[::1]", b"[[::1]", b"[a]b]", b"[a:]", b"", b"a b", b"h%41", b"H\xc3\x89", b"x.y-z_0", b"*", b"a[b",
          b"xn--nxasmq6b", b"A" * 255, b"a" * 256, b"[" + b"a" * 255 + b"]", b"[" + b"a" * 256 + b"]", b"a" * 250, b"B" * 257]
 PORTS = [b"", b"", b"", b":80", b":0", b":1", b":443", b":65535", b":65536", b":99999", b":", b":http", b":HTTP", b":https",
          b":ssh", b":nosuchsvc", b": 80", b":+80", b":-0", b":-1", b":080", b":00000000000000000000080",
@@ -488,7 +488,9 @@ def judge(case, iout, mout, sp, oracle, ponly):
             if R:
                 rf = R[0]
                 if rf.get("rv2") != "0":
-                    bad.append(("sprintf output is rejected by parse (rv %s)" % rf.get("rv2"), None))
+                    hostb = unhx(f.get("host", "NULL")) or b""
+                    bad.append(("sprintf output is rejected by parse (rv %s)" % rf.get("rv2"),
+                                "bracket-host-roundtrip" if (R[1] and hostb.startswith(b"[") and rf.get("rv2") == "3") else None))
                 else:
                     for kf in ("scheme", "host", "port", "path", "query", "fragment"):
                         if rf.get(kf) != f.get(kf):
